@@ -341,6 +341,12 @@ class ObjRunner:
                     return self.run_function(f, recv, args, kw)
             if U(call.func.value) in ("super()",) or U(call.func.value).endswith("ContentHandler"):
                 return None
+        if isinstance(call.func, ast.Attribute) and isinstance(call.func.value, ast.Name) and call.func.value.id == "str" and "str" not in interp.env \
+                and hasattr(str, call.func.attr) and args and isinstance(args[0], str):
+            try:
+                return getattr(str, call.func.attr)(*args, **kw)  # unbound form str.ljust(s, n)
+            except (TypeError, ValueError) as exc:
+                raise Flow("raise", f"{type(exc).__name__}({str(exc)!r})", call) from None
         if name in ("set", "frozenset", "dict") and name not in interp.env and len(args) <= 1 and not kw:
             return {"set": set, "frozenset": frozenset, "dict": dict}[name](*args)
         if isinstance(call.func, ast.Name) and self.cinfo(name) is not None:
